@@ -1376,6 +1376,33 @@ func c10(r *Report, s *Sem) {
 	checkIntersectExact(r, s, R2)
 	R3 := r.Rule("R3", "when negotiation runs, its result is from the offer: the confirmation (and the upgrade) sit on the ok edges of lookups of the peer's selection in sets built from the offered lists — an omitted or merely supported encryption is refused", 3)
 	checkNegotiationGate(r, s, R3)
+	R7 := r.Rule("R7", "the transport reports as supported what it can apply: every return of the TCP transport's SupportedEncryption that lacks 'tls' sits on the edge 'no TLS configuration', the only condition under which SetEncryption(tls) refuses — a stricter test (e.g. on how the certificate is supplied) empties the intersection with a TLS-only configuration, the negotiation is skipped and credentials cross in cleartext on a connection that could have been upgraded", 1)
+	if sup := p.Method("tcpTransport", "SupportedEncryption"); sup != nil {
+		nRet := 0
+		for _, rl := range returnLeaves(sup, 0) {
+			nRet++
+			hasTLS := false
+			for _, e := range sliceOriginsElems(rl.v) {
+				if cs, ok := constString(stripConv(e)); ok && cs == "tls" {
+					hasTLS = true
+				}
+			}
+			if hasTLS {
+				r.Trivial(R7, fmt.Sprintf("func %s / return #%d lists tls", fnName(sup), nRet), p.instrPos(rl.in), true, "")
+				continue
+			}
+			noCfg := condGuardEdge(rl.b, rl.to, func(cd Cond) bool {
+				t, ok := tlsFieldTest(cd)
+				return ok && !t
+			})
+			r.Check(R7, fmt.Sprintf("func %s / return #%d without tls only when no TLS configuration exists", fnName(sup), nRet), p.instrPos(rl.in), noCfg, "SetEncryption(tls) needs nothing but a TLS configuration: the supported list must not be stricter")
+		}
+		if nRet == 0 {
+			r.Undecided(R7, "func "+fnName(sup)+" / returns", p.pos(sup.Pos()), "none")
+		}
+	} else {
+		r.Undecided(R7, "anchor-unresolved:tcpTransport.SupportedEncryption", "-", "not found")
+	}
 	R4 := r.Rule("R4", "a configured encryption list replaces the default: the list handed to EstablishSession is the configuration's field, whose only writers install the constructor's defaults or the caller's list wholesale — with accumulation EncryptionOptions(TLS) would keep 'none' negotiable", 3)
 	checkConfiguredLists(r, s, R4, "SessionEncryption")
 	R5 := r.Rule("R5", "a websocket listener configured with TLS never serves plain HTTP, and its transports report 'tls' only on the TLS-configuration edge (the skip decision of R1 trusts Transport.Encryption())", 4)
